@@ -70,7 +70,7 @@ impl Check for C31 {
             .boxed()
     }
     fn cases(&self, tier: Tier) -> u32 {
-        tier.pick(60000, 2000000)
+        tier.pick(600000, 10000000)
     }
     fn run(&self, c: &LevCase, st: &mut Stats) -> Verdict {
         st.eval(1);
@@ -256,7 +256,7 @@ impl Check for C32 {
             .boxed()
     }
     fn cases(&self, tier: Tier) -> u32 {
-        tier.pick(40000, 1500000)
+        tier.pick(400000, 6000000)
     }
     fn run(&self, c: &TupCase, st: &mut Stats) -> Verdict {
         let m = c.max_terminal_index;
